@@ -3,7 +3,10 @@
 import json, os
 HERE = os.path.dirname(os.path.abspath(__file__))
 VERIF = os.path.dirname(HERE)
-reg = json.load(open(os.path.join(HERE, "registry.json")))
+reg = {}
+for fn in sorted(os.listdir(os.path.join(HERE, "registry.d"))):
+    if fn.endswith(".json"):
+        reg[fn[:-5]] = json.load(open(os.path.join(HERE, "registry.d", fn)))
 props = [json.loads(l) for l in open(os.path.join(VERIF, "properties.jsonl"))]
 checks, na = [], []
 for p in props:
